@@ -47,6 +47,7 @@ type SolveOpts struct {
 	AllSolvers  bool // thorough: ask every solver about every obligation
 	KeepFiles   bool
 	Only        map[string]bool // if set: decide only these obligations (and inferred invariants)
+	NoSecond    map[string]bool // obligations listed as undecided / known finding: no second-chance race when the primary solver does not prove them
 }
 
 type SolveStats struct {
@@ -148,11 +149,70 @@ func SolveFunction(e *Enc, opts SolveOpts, stats *SolveStats) {
 	if len(e.obs) == 0 {
 		return
 	}
+	// derived obligations have no query of their own: they are computed from their members afterwards
+	all0 := e.obs
+	var real, derived []*Obligation
+	for _, ob := range e.obs {
+		if ob.Derived {
+			derived = append(derived, ob)
+		} else {
+			real = append(real, ob)
+		}
+	}
+	e.obs = real
+	defer func() {
+		e.obs = all0
+		for _, d := range derived {
+			d.Result = "unknown"
+			d.Solver = "derived"
+			for _, alt := range d.AnyOf {
+				ok := len(alt) > 0
+				for _, m := range alt {
+					if m.Result != "unsat" {
+						ok = false
+					}
+				}
+				if ok {
+					d.Result = "unsat"
+					d.Model = "measure: " + alt[0].Detail
+					break
+				}
+			}
+		}
+	}()
+	if len(e.obs) == 0 {
+		return
+	}
+	// candidate termination measures are cheap yes/no questions: decide them first with a short timeout
+	{
+		var vc, rest []*Obligation
+		for _, ob := range e.obs {
+			if ob.Kind == "variant-cand" {
+				vc = append(vc, ob)
+			} else {
+				rest = append(rest, ob)
+			}
+		}
+		if len(vc) > 0 {
+			vopts := opts
+			vopts.PrimaryMs = 600
+			solveSubset(e, vc, vopts)
+			e.obs = rest
+			if len(rest) == 0 {
+				return
+			}
+			if opts.Only == nil {
+				script := subsetScript2(e, all0, rest)
+				solveScript(e, script, opts, stats)
+				return
+			}
+		}
+	}
 	if opts.Only != nil {
 		// keep only the wanted obligations; the others are not decided in this run
 		var sel []*Obligation
 		for _, ob := range e.obs {
-			if opts.Only[ob.Name] || ob.Kind == "cand" {
+			if opts.Only[ob.Name] || ob.Kind == "cand" || ob.Kind == "variant-cand" {
 				sel = append(sel, ob)
 			} else {
 				ob.Result = "skipped"
@@ -161,7 +221,7 @@ func SolveFunction(e *Enc, opts SolveOpts, stats *SolveStats) {
 		if len(sel) == 0 {
 			return
 		}
-		script := subsetScript(e, sel)
+		script := subsetScript2(e, all0, sel)
 		all := e.obs
 		e.obs = sel
 		solveScript(e, script, opts, stats)
@@ -211,6 +271,12 @@ func solveScript(e *Enc, script string, opts SolveOpts, stats *SolveStats) {
 	sem := make(chan struct{}, 4)
 	for i, ob := range e.obs {
 		need := false
+		if ob.Kind == "variant-cand" {
+			continue // a failing candidate measure is simply not used
+		}
+		if opts.NoSecond[ob.Name] && !opts.AllSolvers {
+			continue
+		}
 		if ob.Kind == "cover" {
 			need = ob.Result == "unsat" || ob.Result == "error"
 		} else {
@@ -419,7 +485,9 @@ func solveSubset(e *Enc, sel []*Obligation, opts SolveOpts) {
 }
 
 // subsetScript rebuilds the script with the push/check/pop blocks of unselected obligations removed.
-func subsetScript(e *Enc, sel []*Obligation) string {
+func subsetScript(e *Enc, sel []*Obligation) string { return subsetScript2(e, e.obs, sel) }
+
+func subsetScript2(e *Enc, allObs []*Obligation, sel []*Obligation) string {
 	want := map[*Obligation]bool{}
 	for _, ob := range sel {
 		want[ob] = true
@@ -427,7 +495,10 @@ func subsetScript(e *Enc, sel []*Obligation) string {
 	script := e.sb.String()
 	var sb strings.Builder
 	pos := 0
-	for _, ob := range e.obs {
+	for _, ob := range allObs {
+		if ob.Derived {
+			continue
+		}
 		sb.WriteString(script[pos:ob.PrefixLen])
 		pos = ob.PrefixLen
 		if !want[ob] {
